@@ -556,7 +556,9 @@ def approx_penetrance_test(
     # the next best approximations (failing out any genes
     # that are in violation of q1_min_th and qdiff_min_th
     if absolutely_valid.sum() >= n_valid:
-        valid = absolutely_valid
+        valid = np.logical_and(
+            absolutely_valid,
+            np.logical_not(distances['invalid']))
     else:
 
         qdiff_dex = np.argsort(qdiff_dist)
